@@ -332,7 +332,7 @@ func checkC09(c *Check) {
 			for _, l := range allLoopsIn(info, fi.Decl.Body) {
 				inLit := false
 				ast.Inspect(fi.Decl.Body, func(n ast.Node) bool {
-					if fl, ok := n.(*ast.FuncLit); ok && posIn(fl.Body, l.Stmt.Pos()) {
+					if fl, ok := n.(*ast.FuncLit); ok && within(fl.Body, l.Stmt) {
 						inLit = true
 					}
 					return true
@@ -495,7 +495,7 @@ func checkC09(c *Check) {
 			var bodyCall *ast.CallExpr
 			for _, pt := range r.F.Points() {
 				nd := pt.Node()
-				if nd == nil || !posIn(rs.Body, nd.Pos()) {
+				if nd == nil || !within(rs.Body, nd) {
 					continue
 				}
 				for _, call := range callsAt(nd) {
